@@ -398,6 +398,12 @@ def task(items):
             if C_eff < 2:
                 p.count("inner_skipped_single_class")  # a class dimension of 1 means 'binary' in this library: other conventions
                 continue
+            if any(not (v == -1 or 0 <= v < C_eff) for v in lay_eff):
+                # the wrapper below already hands out labels outside the range it announces: a violation of its own
+                p.violation(f"C16:label_out_of_announced_range|{inner[0]}|{kwsig(inner[0], inner[1])}|as_lower_wrapper",
+                            dict(wrapper=inner[0], kwargs=inner[1], layout=list(lay), C=C),
+                            f"{inner[0]}({inner[1]}) on labels {list(lay)} ({C} classes): labels {lay_eff}, getdim_class() = {C_eff}")
+                continue
             for name, kw, _ in configs(len(lay), C_eff, lay_eff):
                 if inner is not None and kw.get("seed", 0) == 1:
                     continue  # stacked: one seed per wrapper
